@@ -36,10 +36,16 @@ impl ItemProject {
 pub fn base_project(n: usize, rich: bool) -> ItemProject {
     let mut files = vec![];
     for i in 0..n {
-        let path = match i % 3 {
-            0 => format!("src/f{}.rs", i),
-            1 => format!("src/a/f{}.rs", i),
-            _ => format!("src/a/b/f{}.rs", i),
+        // rich projects: every file is called mod.rs and sits at the same depth (files that compare
+        // equal under any key coarser than the full path); plain ones: distinct names, depths 0..2
+        let path = if rich {
+            format!("src/m{}/mod.rs", i)
+        } else {
+            match i % 3 {
+                0 => format!("src/f{}.rs", i),
+                1 => format!("src/a/f{}.rs", i),
+                _ => format!("src/a/b/f{}.rs", i),
+            }
         };
         let mut items = vec![];
         let dep = if i + 1 < n { format!("    pub next: Option<T{}>,\n    pub many: HashMap<String, Vec<T{}>>,\n", i + 1, i + 1) } else { String::new() };
@@ -458,6 +464,50 @@ pub fn run(tier: Tier) -> CheckResult {
         transform_runs += e;
         violations.lock().unwrap().extend(v);
     }
+    // layout noise in a LARGE file: a leading comment of every length that puts a string of 3- and
+    // 4-byte characters (an event name, a serde rename, a validator message) across byte offsets
+    // 8192 and 16384 of the source file; the output must not depend on the comment
+    {
+        let wide = "ダウンロード完了😀ダウンロード完了😀ダウンロード完了😀";
+        let body = format!(
+            "{}#[derive(Debug, Clone, Serialize, Deserialize)]\npub struct Wide {{\n    #[serde(rename = \"{w}\")]\n    pub a: i32,\n}}\n#[tauri::command]\npub fn wide(w: Wide) -> Wide {{ w }}\npub fn fire(app: &AppHandle) {{ app.emit(\"{w}\", 1).unwrap(); }}\n",
+            HEADER,
+            w = wide
+        );
+        let occurrences: Vec<usize> = body.match_indices(wide).map(|(i, _)| i).collect();
+        let gen = |pad: usize| -> BTreeMap<String, String> {
+            // "//" + pad dashes + newline: the body starts at byte pad + 3
+            let text = format!("//{}\n{}", "-".repeat(pad), body);
+            out_map(&run_lib(&Project { files: vec![("src/lib.rs".into(), text)], links: vec![] }, &Cfg::mode(true), &Schedule::default()))
+        };
+        let baseline = gen(0);
+        let mut pads: Vec<usize> = vec![];
+        for boundary in [8192usize, 16384] {
+            for occ in &occurrences {
+                // the string starts k bytes before the boundary, for every k that keeps part of it on each side
+                for k in 0..=wide.len() {
+                    if let Some(pad) = boundary.checked_sub(k + 3 + occ) {
+                        pads.push(pad);
+                    }
+                }
+            }
+        }
+        pads.sort();
+        pads.dedup();
+        let pv: Vec<Violation> = pads
+            .par_iter()
+            .filter_map(|pad| {
+                let o = gen(*pad);
+                if o != baseline {
+                    Some(mk("layout-noise-changes-output", &[("transform", "leading-comment-in-large-file".to_string()), ("files", "1".to_string()), ("mode", "zod".to_string())], format!("a leading comment of {} bytes (multi-byte text across a multiple of 8192 bytes) changes the output: {}", pad, first_diff(&baseline, &o)), json!({"kind":"padding","pad":pad}), 1))
+                } else {
+                    None
+                }
+            })
+            .collect();
+        transform_runs += pads.len() as u64;
+        violations.lock().unwrap().extend(pv.into_iter().take(3));
+    }
     // CLI seam
     let ccases: Vec<(usize, bool)> = (1..=3).flat_map(|n| [(n, false), (n, true)]).collect();
     let cres: Vec<(Vec<Violation>, u64)> = ccases.par_iter().flat_map(|(n, z)| [(*n, *z, false), (*n, *z, true)]).map(|(n, z, m)| cli_case(n, z, if tier == Tier::Quick { 16 } else { 64 }, m)).collect();
@@ -497,7 +547,7 @@ pub fn run(tier: Tier) -> CheckResult {
         {"kind":"transform","n_files":3,"zod":false,"transform":"MoveTypes"},
         {"kind":"cli","n_files":2,"zod":true,"flags":"--verbose + visualize_deps"}
     ]));
-    res.coverage.set("rule", format!("projects of 2..{} files (file i: struct T_i depending on T_i+1 through Option and HashMap<String, Vec<..>>, enum K_i, 1-2 commands, a channel, an event); for each project and mode every iteration-order schedule at hook sites S1 (files), S4 (plain struct order), S5/S6 (topological sort): full product for <= 3 (thorough: 4) files, deviation bound {} beyond; oracle: all files byte-identical to the identity schedule's output modulo the timestamp line; identity schedule run twice (replay divergence). Transformations (comments/whitespace, helper fns, non-serde items: output identical; reorder items, move types between files, merge, split, rename files: identical multiset of parsed top-level declarations per file and, in Zod mode, still declaration-before-use). CLI seam: --verbose and visualize_deps leave the binding files identical (the latter adds exactly its two files); one process per hash seed 0..16 (quick) / 0..64 (thorough) - the preloaded getrandom shim makes every hash iteration order of the process a function of the seed - incl. reversed file order, must agree on every file incl. the dependency graphs; the same again with four type mappings in the configuration, two of them module-qualified spellings of one bare name.", max_files, if tier == Tier::Quick { 2 } else { 3 }));
+    res.coverage.set("rule", format!("projects of 2..{} files (file i: struct T_i depending on T_i+1 through Option and HashMap<String, Vec<..>>, enum K_i, 1-2 commands, a channel, an event); for each project and mode every iteration-order schedule at hook sites S1 (files), S4 (plain struct order), S5/S6 (topological sort): full product for <= 3 (thorough: 4) files, deviation bound {} beyond; oracle: all files byte-identical to the identity schedule's output modulo the timestamp line; identity schedule run twice (replay divergence). Transformations (a leading comment of every length that puts multi-byte text across the 8 KiB and 16 KiB offsets of a source file; comments/whitespace, helper fns, non-serde items: output identical; reorder items, move types between files, merge, split, rename files: identical multiset of parsed top-level declarations per file and, in Zod mode, still declaration-before-use). CLI seam: --verbose and visualize_deps leave the binding files identical (the latter adds exactly its two files); one process per hash seed 0..16 (quick) / 0..64 (thorough) - the preloaded getrandom shim makes every hash iteration order of the process a function of the seed - incl. reversed file order, must agree on every file incl. the dependency graphs; the same again with four type mappings in the configuration, two of them module-qualified spellings of one bare name.", max_files, if tier == Tier::Quick { 2 } else { 3 }));
     res.assumptions = vec!["hash iterations not behind a hook site are covered by the enumerated hash seeds of the process (a seed alphabet, deterministic and replayable, not a complete order product) and by fresh analyser instances in process".into()];
     let _ = gen::PRELUDE;
     res
